@@ -60,6 +60,15 @@ func (p *scriptPolicy) KeyspaceChanged(gocql.KeyspaceUpdateEvent) {}
 func (p *scriptPolicy) Init(*gocql.Session)                       {}
 func (p *scriptPolicy) IsLocal(*gocql.HostInfo) bool              { return true }
 
+// lenient is a ConvictionPolicy (public interface) that does not convict the hosts in `spare`: such a host stays
+// "up" although every dial fails, so its pool exists but has no connection.
+type lenient struct{ spare map[string]bool }
+
+func (l *lenient) AddFailure(_ error, h *gocql.HostInfo) bool {
+	return !l.spare[h.ConnectAddress().String()]
+}
+func (l *lenient) Reset(*gocql.HostInfo) {}
+
 type sel struct{ h *gocql.HostInfo }
 
 func (s sel) Info() *gocql.HostInfo { return s.h }
@@ -269,18 +278,19 @@ func (c *deadlineCtx) expire() {
 // ---------------------------------------------------------------- scenario
 
 type scenario struct {
-	kind     string // q | bl | bu | bc
-	ctor     string // s: Session.Query / Session.NewBatch ; n: package-level NewBatch (no session defaults)
-	policy   string
-	polAt    string   // s: session level ; q: statement level ; o: statement level over a session-level decoy
-	obs      string   // - | s | q | o
-	idem     string   // 0 | 1 | m (batch with mixed entries: not idempotent)
-	sp       string   // - | K : SimpleSpeculativeExecution{K, 1h}
-	ctx      string   // - | c | d | p | pd
-	cons     int      // initial consistency
-	api      string   // e: Exec / ExecuteBatch ; i: Iter().Close()
-	reps     int      // how often the same statement object is executed
-	hosts    []string // "id:up:conn" ; ip = 10.0.0.<id>
+	kind   string // q | bl | bu | bc
+	ctor   string // s: Session.Query / Session.NewBatch ; n: package-level NewBatch (no session defaults)
+	policy string
+	polAt  string   // s: session level ; q: statement level ; o: statement level over a session-level decoy
+	obs    string   // - | s | q | o
+	idem   string   // 0 | 1 | m (batch with mixed entries: not idempotent)
+	sp     string   // - | K : SimpleSpeculativeExecution{K, 1h}
+	ctx    string   // - | c | d | p | pd
+	cons   int      // initial consistency
+	api    string   // e: Exec / ExecuteBatch ; i: Iter().Close()
+	reps   int      // how often the same statement object is executed
+	hosts  []string // "id:up:conn" ; ip = 10.0.0.<id>; 1:1 reachable, 0:0 unreachable and marked down (no pool), 1:0 unreachable
+	// but not convicted (up, pool without connection), 1:f rejected by the HostFilter yet offered by the policy (up, no pool)
 	outcomes []string // o | l | e<k>[variant] | e10
 }
 
@@ -481,14 +491,19 @@ func runEx(d scenario) (answer string) {
 		}
 	}()
 	var ips, order []string
-	dead := map[string]bool{}
+	dead, spare, filtered := map[string]bool{}, map[string]bool{}, map[string]bool{}
 	for _, h := range d.hosts {
 		p := strings.Split(h, ":")
 		ip := "10.0.0." + p[0]
 		order = append(order, ip)
-		if p[1] == "1" && p[2] == "1" {
+		switch {
+		case p[1] == "1" && p[2] == "1":
 			ips = append(ips, ip)
-		} else {
+		case p[1] == "1" && p[2] == "f":
+			filtered[ip] = true
+		case p[1] == "1":
+			dead[ip], spare[ip] = true, true
+		default:
 			dead[ip] = true
 		}
 	}
@@ -560,6 +575,16 @@ func runEx(d scenario) (answer string) {
 	cfg.ConnectTimeout = 2 * time.Second
 	pol := &scriptPolicy{hosts: map[string]*gocql.HostInfo{}, order: order}
 	cfg.PoolConfig.HostSelectionPolicy = pol
+	cfg.ConvictionPolicy = &lenient{spare: spare}
+	if len(filtered) > 0 {
+		cfg.HostFilter = gocql.HostFilterFunc(func(h *gocql.HostInfo) bool {
+			if filtered[h.ConnectAddress().String()] {
+				pol.AddHost(h) // the session gives this host no pool; the scripted policy offers it all the same
+				return false
+			}
+			return true
+		})
+	}
 	sessObs, stmtObs := &recorder{}, &recorder{}
 	switch d.polAt {
 	case "s":
@@ -1035,11 +1060,16 @@ func genScenario(r *vh.Rng) scenario {
 	}
 	nh := r.Intn(7)
 	for j := 1; j <= nh; j++ {
-		up := 1
-		if r.Intn(5) == 0 {
-			up = 0
+		st := "1:1"
+		switch r.Intn(16) {
+		case 0, 1:
+			st = "0:0"
+		case 2:
+			st = "1:0"
+		case 3:
+			st = "1:f"
 		}
-		d.hosts = append(d.hosts, fmt.Sprintf("%d:%d:%d", j, up, up))
+		d.hosts = append(d.hosts, fmt.Sprintf("%d:%s", j, st))
 	}
 	no := r.Intn(9)
 	stubborn := r.Intn(3) == 0 // one failure kind throughout: runs into the policy's budget
